@@ -29,16 +29,26 @@ func minimiseMode(t *testing.T, engine, prop string, fn PropFn) {
 	oracle := rf.Violation.Oracle
 	tries := 0
 	var lastGood *Run
+	// attempts > 1 only when the raw trace does not reproduce at the first try: the code under test may
+	// itself be nondeterministic (e.g. it ranges over a Go map); such a violation is kept if it shows up
+	// again within a few executions of the same trace, and the replay file says so
+	attempts := 1
 	test := func(tr []int) ([]int, bool) {
-		tries++
-		r := replayRun(t, rf, tr, fn, false)
-		if r.Viol != nil && r.Viol.Oracle == oracle {
-			lastGood = r
-			return trimZeros(append([]int{}, r.Src.Rec...)), true
+		for a := 0; a < attempts; a++ {
+			tries++
+			r := replayRun(t, rf, tr, fn, false)
+			if r.Viol != nil && r.Viol.Oracle == oracle {
+				lastGood = r
+				return trimZeros(append([]int{}, r.Src.Rec...)), true
+			}
 		}
 		return nil, false
 	}
 	cur, ok := test(rf.Trace)
+	if !ok {
+		attempts = 6
+		cur, ok = test(rf.Trace)
+	}
 	if !ok {
 		fmt.Println("INFRA raw trace does not reproduce the violation (nondeterminism?)")
 		os.Exit(2)
@@ -112,14 +122,32 @@ func minimiseMode(t *testing.T, engine, prop string, fn PropFn) {
 		}
 	}
 	// final run with full log
-	fin := replayRun(t, rf, cur, fn, true)
-	if fin.Viol == nil || fin.Viol.Oracle != oracle {
-		fmt.Println("INFRA minimised trace does not reproduce")
-		os.Exit(2)
+	var fin *Run
+	flaky := attempts > 1
+	confirm := func(tr []int) bool {
+		for a := 0; a < 8; a++ {
+			fin = replayRun(t, rf, tr, fn, true)
+			if fin.Viol != nil && fin.Viol.Oracle == oracle {
+				if a > 0 {
+					flaky = true
+				}
+				return true
+			}
+		}
+		return false
+	}
+	if !confirm(cur) {
+		// shrinking went through an execution that does not recur: keep the trace as found
+		cur = trimZeros(append([]int{}, rf.Trace...))
+		flaky = true
+		if !confirm(cur) {
+			fmt.Println("INFRA minimised trace does not reproduce")
+			os.Exit(2)
+		}
 	}
 	_ = lastGood
 	out := &ReplayFile{Property: prop, Engine: engine, Seed: rf.Seed, Tier: rf.Tier, Trace: cur, Violation: fin.Viol,
-		Cfg: fin.Cfg, Log: tail(annotate(fin), 600), Minimised: true, RawLen: rf.RawLen, RepoRev: os.Getenv("VERIF_REPO_REV")}
+		Cfg: fin.Cfg, Log: tail(annotate(fin), 600), Minimised: true, RawLen: rf.RawLen, RepoRev: os.Getenv("VERIF_REPO_REV"), Flaky: flaky}
 	writeJSON(outPath, out)
 	fmt.Printf("MINIMISED raw=%d min=%d tries=%d oracle=%s\n", rf.RawLen, len(cur), tries, oracle)
 }
